@@ -18,6 +18,8 @@ Verdict(c) ==
   ELSE IF R.reads > 0 /\ ~AvgOK(o.ident_milli, R.ident) THEN "best_identity_wrong"
   ELSE IF R.reads > 0 /\ ~AvgOK(o.ratio_milli, R.ratio) THEN "best_map_ratio_wrong"
   ELSE IF c.cigar /\ (o.del # R.del \/ o.ins # R.ins \/ o.sub # R.sub \/ o.mat # R.mat) THEN "cigar_run_counts_wrong"
+  ELSE IF c.cigar /\ (o.bigdel # R.bigdel \/ o.bigins # R.bigins \/ o.bigsub # R.bigsub \/ o.bigmat # R.bigmat) THEN "cigar_large_run_counts_wrong"
+  ELSE IF c.cigar /\ o.perfect # R.perfect THEN "perfect_alignment_count_wrong"
   ELSE "ok"
 CInit == i = 1 /\ TInit
 CNext == /\ i <= Len(Cases)
